@@ -485,7 +485,7 @@ def prf_wiring(ctx, facts):
         for b in tree:
             if not b.coroutine and b.kind == "Closure" and len(b.blocks) <= 8:
                 r = flow.expr_of(b, {"cp": [0]}, max_depth=8)
-                if "match_key" in str(r) and "records" in str(r):
+                if "match_key" in str(r) and re.search(r"\('upvar', '\w+'\)", str(r)):      # <captured chunk>[i].match_key, whatever the chunk is called
                     mk = (b, r)
         ok1 = False
         if mk:
@@ -493,7 +493,7 @@ def prf_wiring(ctx, facts):
             while src[0] == "call" and re.search(r"(Clone::clone|Deref::deref|Borrow::borrow)$", src[1]):
                 src = src[2][0]
             # records[i].match_key : projection (index by the closure's parameter, then the field) of the chunk
-            ok1 = src[0] == "proj" and src[-1] == "match_key" and len(src) == 4 and "records" in str(src[1]) and mk[0].nargs >= 2
+            ok1 = src[0] == "proj" and src[-1] == "match_key" and len(src) == 4 and "'upvar'" in str(src[1]) and mk[0].nargs >= 2
         ctx.ob("WIRE-prf", "converts-own-match-key", ok1, "lane i of the conversion input is records[i].match_key" if ok1 else "the value converted for the PRF is not records[i].match_key", site_of(mk[0]) if mk else site_of(main))
         # 2. PRF key
         gk = facts.bodies.get("protocol::hybrid::oprf::gen_prf_key")
